@@ -629,7 +629,7 @@ fn recipients(rep: &mut Report, model: &mut Model, ctx: &Ctx, rng: &mut Rng) {
 /// the format puts no bound on the number of recipients: archives for many of them (header of
 /// several KiB) open for the first, a middle and the last recipient, and for nobody else
 fn many_recipients(rep: &mut Report, ctx: &Ctx, rng: &mut Rng) {
-    let counts: Vec<usize> = if ctx.thorough { vec![16, 84, 85, 86, 128, 300, 1000] } else { vec![85 + rng.below(3) as usize, 300] };
+    let counts: Vec<usize> = if ctx.thorough { vec![16, 84, 85, 86, 128, 300, 1000, 1364, 1365, 1400, 3000] } else { vec![85 + rng.below(3) as usize, 300, 1365 + rng.below(40) as usize] };
     for n in counts {
         let recs: Vec<[u8; 32]> = (0..n).map(|_| rand_key(rng)).collect();
         let layers = if n % 2 == 0 { L_ENC } else { L_ENC | L_COMP };
